@@ -73,7 +73,7 @@ def seq_ops(rng, n, moltype, new, depth=None):
 
 def rand_seq(rng, new=None):
     new = rng.random() < 0.5 if new is None else new
-    mt = rng.choice(["dna", "dna", "dna", "rna", "protein", "text"] + ([] if new else ["protein_with_stop"]))
+    mt = rng.choice(["dna", "dna", "dna", "rna", "protein", "text", "protein_with_stop", "bytes"])
     n = rng.choice([0, 1, 2, 5, 8, 12, 20])
     s = rstr(rng, ALPHA[mt], n)
     if n > 3 and rng.random() < 0.15:
@@ -271,6 +271,9 @@ def span_cases():
     out.append(dict(gen="imap", p=dict(kind="fmap", locations=[[997, 999]], plen=1000, ops=[["prime_lost", 997], ["shadow", 0]]), block="enum"))
     out.append(dict(gen="imap", p=dict(kind="fmap", locations=[[996, 999]], plen=1000, ops=[["prime_lost", 996], ["inverse", 0]]), block="enum"))
     out.append(dict(gen="imap", p=dict(kind="fmap", locations=[[995, 999]], plen=1000, ops=[["shadow", 0]]), block="enum"))
+    # a feature map made from an indel map carries numpy integers
+    out.append(dict(gen="imap", p=dict(kind="imap", gap_pos=[1], gap_lengths=[2], plen=4, ops=[["to_fmap"]]), block="enum"))
+    out.append(dict(gen="imap", p=dict(kind="imap", gap_pos=[0, 3], gap_lengths=[1, 2], plen=6, ops=[["slice", 1, 7], ["to_fmap"]]), block="enum"))
     for (a, b, rev, val) in [(2, 7, False, None), (2, 7, True, None), (0, 0, False, None), (3, 9, True, "v"), (1, 4, False, 5)]:
         out.append(dict(gen="span", p=dict(kind="span", start=a, end=b, reverse=rev, value=val), block="enum"))
         out.append(dict(gen="span", p=dict(kind="span", start=a, end=b, reverse=rev, value=val, ops=[["mul", 3]]), block="enum"))
@@ -506,6 +509,12 @@ def sm_cases(tier):
     out.append(dict(gen="sm", p=dict(name=None, custom=dict(cls="TimeReversibleNucleotide", kw=dict(name="mine"), predicates={"kappa": ["A", "G"]})), block="enum"))
     out.append(dict(gen="sm", p=dict(name=None, custom=dict(cls="TimeReversibleNucleotide", kw=dict(), predicates={"ag": ["A", "G"], "ct": ["C", "T"]})), block="enum"))
     out.append(dict(gen="sm", p=dict(name=None, custom=dict(cls="TimeReversibleDinucleotide", kw=dict(name="dinuc", mprob_model="tuple"), predicates=None)), block="enum"))
+    out.append(dict(gen="sm", p=dict(name=None, custom=dict(cls="TimeReversibleTrinucleotide", kw=dict(name="trinuc"), predicates=None)), block="enum"))
+    out.append(dict(gen="sm", p=dict(name=None, custom=dict(cls="TimeReversibleProtein", kw=dict(name="prot"), predicates=None)), block="enum"))
+    for cls in ("General", "GeneralStationary"):
+        out.append(dict(gen="sm", p=dict(name=None, custom=dict(mod="ns", cls=cls, alphabet="dna", kw=dict(name=cls.lower()), predicates=None)), block="enum"))
+    for cls in ("NonReversibleDinucleotide", "NonReversibleTrinucleotide", "NonReversibleProtein", "DiscreteSubstitutionModel"):
+        out.append(dict(gen="sm", p=dict(name=None, custom=dict(mod="ns", cls=cls, kw=dict(name=cls.lower()), predicates=None, **({"alphabet": "dna"} if cls == "DiscreteSubstitutionModel" else {}))), block="enum"))
     return out
 
 
@@ -614,27 +623,44 @@ def rand_seq_db(rng):
                                      ops=seq_ops(rng, n, "dna", False, depth=rng.choice([0, 1, 2, 3]))), block="random")
 
 
+def misc_cases(rng, n):
+    out = []
+    for _ in range(n):
+        mt = rng.choice(["dna", "rna", "protein", "text", "protein_with_stop"])
+        L = rng.choice([0, 1, 5, 9])
+        out.append(dict(gen="misc", p=dict(kind="aseq", moltype=mt, seq=rstr(rng, ALPHA[mt].upper(), L), name=rng.choice(["s", None]),
+                                           ops=[rslice(rng, max(L, 1)) for _ in range(rng.choice([0, 1, 2]))] + ([["rc"]] if mt in ("dna", "rna") and rng.random() < 0.3 else [])), block="random"))
+    # (a bare TreeNode - the base class of PhyloNode - is not generated: make_tree, the parsers' default and the
+    #  deserialiser all produce PhyloNode; it is listed among the uncovered types in the evidence)
+    for mt in ("dna", "protein", "text"):
+        seqs = {nm: rstr(rng, ALPHA[mt][:4].upper(), rng.choice([1, 4, 7])) for nm in ("a", "b", "c")}
+        out.append(dict(gen="misc", p=dict(kind="seqsdata", moltype=mt, seqs=seqs, ops=[]), block="enum"))
+        out.append(dict(gen="misc", p=dict(kind="seqsdata", moltype=mt, seqs=seqs, ops=([["rc"]] if mt == "dna" else []) + [["take_seqs", ["c", "a"]]]), block="enum"))
+    return out
+
+
 def build_cases(tier, rng, widen=1):
     q = tier == "quick"
     n = (lambda a, b: (a if q else b) * widen)
     cases = [dict(gen="inventory", p={}, block="enum")]
     cases += exhaustive_seq_block(tier, rng)
     cases += exhaustive_aligned_block(tier)
-    cases += [rand_seq(rng) for _ in range(n(500, 6000))]
-    cases += [rand_view(rng) for _ in range(n(150, 1500))]
-    cases += [rand_aln(rng) for _ in range(n(300, 4000))]
-    cases += [rand_aligned(rng) for _ in range(n(200, 2500))]
-    cases += [rand_imap(rng) for _ in range(n(200, 2500))]
+    cases += [rand_seq(rng) for _ in range(n(500, 4000))]
+    cases += [rand_view(rng) for _ in range(n(150, 1000))]
+    cases += [rand_aln(rng) for _ in range(n(300, 2500))]
+    cases += [rand_aligned(rng) for _ in range(n(200, 1500))]
+    cases += [rand_imap(rng) for _ in range(n(200, 1500))]
     cases += span_cases()
-    cases += [rand_tree(rng) for _ in range(n(150, 2000))]
-    cases += [rand_table(rng) for _ in range(n(200, 3000))]
-    cases += [rand_darr(rng) for _ in range(n(150, 2000))]
+    cases += [rand_tree(rng) for _ in range(n(150, 1200))]
+    cases += [rand_table(rng) for _ in range(n(200, 1800))]
+    cases += [rand_darr(rng) for _ in range(n(150, 1200))]
     cases += alpha_cases(tier)
     cases += sm_cases(tier)
     cases += lf_cases(tier, rng)
     cases += result_cases(tier)
     cases += [rand_db(rng) for _ in range(n(60, 600))]
-    cases += [rand_seq_db(rng) for _ in range(n(150, 2000))]
+    cases += [rand_seq_db(rng) for _ in range(n(150, 1200))]
+    cases += misc_cases(rng, n(60, 400))
     return cases
 
 
@@ -731,6 +757,11 @@ def compare_case(rep, c, r, stats):
         return 0
     obs = neutralise(r["obs"])
     cls = short_cls(r["cls"])
+    project = None
+    if obs.get("kind") == "aseq":
+        # an ArraySequence reads back as the (richer) Sequence of the same moltype: compared on what both offer
+        project = ("str", "name", "moltype", "info")
+        obs = {k: obs.get(k) for k in project}
     reported = set()          # (route class, what) already reported for this case: a failure of to_json is one finding, not three
     order = ["json", "rich", "json2", "jsonvalid", "pickle", "deepcopy"]
     for route in sorted(r["routes"], key=lambda x: order.index(x) if x in order else 99):
@@ -756,7 +787,12 @@ def compare_case(rep, c, r, stats):
                 nvio += 1
                 rep.violation(f"{c['gen']}:{cls}:jsonvalid", dict(case=c, route=route, observed_impl=ro, broken="to_json differs from json.dumps(to_rich_dict())"))
             continue
-        d = same(obs, neutralise(ro))
+        ro_n = neutralise(ro)
+        if project and isinstance(ro_n, dict):
+            ro_n = {k: ro_n.get(k) for k in project}
+        if obs.get("kind") == "tree" and isinstance(ro_n, dict):
+            ro_n = dict(ro_n, cls=obs.get("cls"))   # a TreeNode reads back as a PhyloNode (a superset of its interface)
+        d = same(obs, ro_n)
         if d:
             if c["gen"] == "view" and field_of(d) in ("pstart", "pstop"):
                 # the bare view's position: Properties/C10.v seqview_position_refuted
